@@ -379,13 +379,14 @@ def run(ctx):
         nonlocal mism
         if diff is not None:
             mism += 1
-        name = ("correspondence:C16.step" if diff is not None else "oracle:C16.lifecycle")
         if model is not None and key is None:
-            pred = (lambda d, o: d is not None) if diff is not None else (lambda d, o: o is not None)
+            # keep a failing input of the property itself if there is one, else the model/code difference
+            pred = (lambda d, o: o is not None) if ofail is not None else (lambda d, o: d is not None)
             small = shrink(model, mods, opts, fixes, kept, pred)
             k2, d2, o2 = check_history(model, mods, opts, fixes, small)
             if pred(d2, o2):
                 kept, diff, ofail = k2, d2, o2
+        name = ("correspondence:C16.step" if diff is not None else "oracle:C16.lifecycle")
         ctx.violation(name, {"kind": kind, "options": opts.as_dict(), "guards": list(fixes),
                              "history": hist_json(kept), "difference": diff, "oracle": ofail},
                       found_input=ofail is not None, key=key)
